@@ -170,6 +170,15 @@ def _init_child(c):
     logging.disable(logging.CRITICAL)
     isetup.setup_logger = lambda *a, **k: None
     out = {"accepted": False, "error": None, "init": None, "fixed_point": None}
+    if os.path.exists("restart_form.toml"):
+        # the same (invalid) settings arriving as a restart file - what a user gets who edits restart.toml before continuing
+        try:
+            r = setup_config("restart_form.toml", re_inp="restart_form.toml")
+            out["restart_form"] = ("accepted" if r is not None else "refused-silently", "")
+        except TOMLConfigError as exc:
+            out["restart_form"] = ("TOMLConfigError", str(exc))
+        except Exception as exc:  # noqa: BLE001
+            out["restart_form"] = (type(exc).__name__, str(exc))
     try:
         cfg = setup_config("infretis.toml")
     except TOMLConfigError as exc:
@@ -247,7 +256,7 @@ def _run_child(_):
     isetup.setup_logger = lambda *a, **k: None
     cfg = setup_config("infretis.toml")
     drv = simdrv.Driver(simdrv.Policy("oldest"), None, None, tis.run_md)
-    sched.setup_runner = lambda state: (simdrv.FakeRunner(drv), simdrv.FakeFutures(drv))
+    sched.setup_runner = lambda state: (simdrv.FakeRunner(drv, state), simdrv.FakeFutures(drv))
     sched.scheduler(cfg)
     raw = open("restart.toml", "rb").read()
     cfg2 = setup_config("restart.toml")
@@ -275,6 +284,15 @@ def body(rec, c):
             if paths:
                 for i, orders in enumerate(paths):
                     simdrv.write_load_path(os.path.join(d, "load"), i, orders)
+        if why:
+            size = len(cfg["simulation"]["interfaces"])
+            rcfg = dict(cfg, current={"traj_num": size + 3, "cstep": 3, "active": list(range(size)), "locked": [], "size": size, "frac": {}})
+            with open(os.path.join(d, "restart_form.toml"), "wb") as fh:
+                tomli_w.dump(rcfg, fh)
+            for i in range(size):
+                os.makedirs(os.path.join(d, cfg["simulation"].get("load_dir", "load"), str(i)), exist_ok=True)
+                with open(os.path.join(d, cfg["simulation"].get("load_dir", "load"), str(i), "traj.txt"), "w") as fh:
+                    fh.write("# placeholder\n")
         cc = dict(c)
         cc["_paths"] = bool(paths)
         res = isolate.run_in_fork(_init_child, (cc,), cwd=d, timeout=120)
@@ -287,6 +305,10 @@ def body(rec, c):
                 rec.check(False, f"config:invalid-configuration-accepted:{why[0]}", info)
             elif res["error"][0] != "TOMLConfigError":
                 rec.check(False, f"config:invalid-configuration-not-a-config-error:{why[0]}:{res['error'][0]}", f"{res['error'][1]} {info}")
+            rf = res.get("restart_form")
+            if rf:
+                rec.cls("cfg:invalid-settings-in-a-restart-file")
+                rec.check(rf[0] == "TOMLConfigError", f"config:invalid-configuration-accepted-in-a-restart-file:{why[0]}:{rf[0]}", f"{rf[1]} {info}")
             return
         if not res["accepted"]:
             if res["error"][0] != "TOMLConfigError":
